@@ -124,38 +124,113 @@ def r1_paired_fields(ctx):
              "initial parameters are inserted through append in their given order")
 
 
+def _column_iterations(fn, mode_array):
+    """Iteration paths of the loops over self._columns that are consistent with the storage mode.
+    -> list of (loop, index token or None, name token, [resolved effect expressions])"""
+    from ..flowexpr import consistent, explore
+    ex = explore(fn)
+    out = []
+    for lp, start, its in [t for lst in ex.iterations_all.values() for t in lst]:
+        if not isinstance(lp, ast.For):
+            continue
+        iters = {norm(q.events[start - 1].resolved) for q in its if start >= 1 and q.events[start - 1].kind == "loop"}
+        if not iters or not all(i in ("enumerate(self._columns)", "self._columns", "zip(range(len(self._columns)), self._columns)", "zip(self._columns, self._columns)")
+                                for i in iters):
+            continue
+        from ..flowexpr import truth
+        atom = lambda e: {"self._array": mode_array, "self._array is False": not mode_array, "self._array is True": mode_array}.get(norm(e))   # noqa: E731
+        cs = []
+        for q in its:
+            ok = True
+            for e in q.events:
+                if e.kind == "test" and isinstance(e.resolved, ast.AST):
+                    v = truth(e.resolved, atom)
+                    if v is not None and v != e.extra:
+                        ok = False
+            if ok:
+                cs.append(q)
+        for q in cs:
+            tag = next((n.id.split("@")[1] for e in q.events[start:] if e.resolved is not None for n in ast.walk(e.resolved)
+                        if isinstance(n, ast.Name) and "@loop" in n.id and not n.id.endswith("'")), None)
+            if isinstance(lp.target, ast.Tuple):
+                idx, nm = (f"{t.id}@{tag}" for t in lp.target.elts)
+            else:
+                idx, nm = None, f"{lp.target.id}@{tag}"
+            eff = [e.resolved for e in q.events[start:] if e.kind == "expr" and isinstance(e.resolved, ast.Call)]
+            by_name = norm(q.events[start - 1].resolved) == "zip(self._columns, self._columns)"
+            out.append((lp, idx, nm, eff, by_name))
+    return out
+
+
 def r2_row_collector(ctx):
+    """RowCollector on resolved iteration paths: in either storage mode one pass over the column list gives column n the
+    n-th value of the row; sort() applies one index vector, computed once, to every column."""
+    from ..model import cnorm
     ap = ctx.fn(RC, "RowCollector.append")
-    loops = [l for l in ast.walk(ap) if isinstance(l, ast.For)]
-    col_loops = [l for l in loops if norm(l.iter) == "enumerate(self._columns)"]
-    ctx.check(len(col_loops) == 2 and len(loops) == 2, RC, "RowCollector.append", "both storage modes write to every column, in column order", detail=[norm(l.iter) for l in loops])
-    for l in col_loops:
-        idx, nm = [norm(e) for e in l.target.elts] if isinstance(l.target, ast.Tuple) else (None, None)
-        b = norm(l).replace("\n", " ")
-        ok = f"values[{idx}]" in b and f"getattr(self, {nm})" in b and b.count(f"values[{idx}]") == 1
-        ctx.check(ok, RC, "RowCollector.append", "column n receives value n of the row", detail=[norm(s)[:70] for s in l.body])
-    src = norm(ap).replace("\n", " ")
-    ctx.check("values = [values[name] for name in self._columns]" in src, RC, "RowCollector.append", "a dict row is re-ordered by the column list")
-    ctx.check("missing = [key for key in values.keys() if key not in self._columns]" in src and "raise Exception('Missing columns:', missing)" in src, RC,
-              "RowCollector.append", "a dict row with an unknown key is an error once columns exist")
+    for mode in (True, False):
+        name = "array" if mode else "list"
+        try:
+            its = _column_iterations(ap, mode)
+        except (Unrecognised, AnalysisError) as e:
+            ctx.unrecognised(RC, "RowCollector.append", f"{name} mode: column pass", str(e))
+            continue
+        loops = {id(i[0]) for i in its}
+        if len(loops) != 1:
+            ctx.unrecognised(RC, "RowCollector.append", f"{name} mode: column pass", f"{len(loops)} loops over the column list are entered in this mode")
+            continue
+        ctx.holds(RC, "RowCollector.append", f"{name} mode: every column is written, in column order", detail=norm(its[0][0].iter))
+        for lp, idx, nm, eff, by_name in its:
+            if by_name:
+                ctx.violated(RC, "RowCollector.append", f"{name} mode: a row is complete before any column is extended",
+                             detail="the row is looked up by column name inside the pass over the columns: a missing key raises after earlier columns were extended",
+                             expected="values = [values[name] for name in self._columns] before the pass")
+                continue
+            if idx is None or len(eff) != 1:
+                ctx.unrecognised(RC, "RowCollector.append", f"{name} mode: column n receives value n of the row", f"effects {[norm(x)[:60] for x in eff]}")
+                continue
+            got = cnorm(eff[0]).replace("[values[_c0] for _c0 in self._columns]", "values")
+            col = f"getattr(self, {nm})"
+            want = f"setattr(self, {nm}, np.append({col}, np.array(values[{idx}], dtype={col}.dtype)))" if mode else f"{col}.append(values[{idx}])"
+            wrong = [f"setattr(self, {nm}, np.append(np.array(values[{idx}], dtype={col}.dtype), {col}))", f"{col}.insert(0, values[{idx}])"]
+            if got == want:
+                ctx.holds(RC, "RowCollector.append", f"{name} mode: column n receives value n of the row", detail=got.replace(nm, "NAME").replace(idx, "N"))
+            elif got in wrong or ("values[" in got and f"values[{idx}]" not in got):
+                ctx.violated(RC, "RowCollector.append", f"{name} mode: column n receives value n of the row", detail=got.replace(nm, "NAME").replace(idx, "N"),
+                             expected=want.replace(nm, "NAME").replace(idx, "N"))
+            else:
+                ctx.unrecognised(RC, "RowCollector.append", f"{name} mode: column n receives value n of the row", f"effect {got[:120]}")
+    asg = [cnorm(a) for a in ast.walk(ap) if isinstance(a, ast.Assign)]
+    vp = ap.args.args[1].arg if len(ap.args.args) > 1 else "values"
+    ctx.form(f"{vp} = [{vp}[_c0] for _c0 in self._columns]" in asg, RC, "RowCollector.append", "a dict row is re-ordered by the column list")
+    ctx.form(any(a.endswith(f"= [_c0 for _c0 in {vp}.keys() if _c0 not in self._columns]") or a.endswith(f"= [_c0 for _c0 in {vp} if _c0 not in self._columns]") for a in asg)
+             and "raise Exception('Missing columns:'" in norm(ap), RC, "RowCollector.append", "a dict row with an unknown key is an error once columns exist")
     so = ctx.fn(RC, "RowCollector.sort")
     arg = so.args.args[1].arg
-    ids = [a for a in ast.walk(so) if isinstance(a, ast.Assign) and norm(a.targets[0]) == "ids"]
-    first = ids[0] if ids else None
-    ctx.check(first is not None and norm(first.value) == f"np.argsort(getattr(self, {arg}))" and so.body.index(first) <= 1 if first in so.body else False, RC, "RowCollector.sort",
-              "one index vector is computed from the named column before any column is touched", detail=[norm(a.value) for a in ids])
-    rev = [a for a in ids[1:]]
-    ctx.check(len(rev) == 1 and norm(rev[0].value) == "ids[::-1]", RC, "RowCollector.sort", "reverse reverses that vector", detail=[norm(a.value) for a in rev])
-    loops = [l for l in ast.walk(so) if isinstance(l, ast.For)]
-    ok = len(loops) == 2 and all(norm(l.iter) in ("enumerate(self._columns)", "self._columns") for l in loops)
-    ctx.check(ok, RC, "RowCollector.sort", "the permutation is applied to every column in both storage modes", detail=[norm(l.iter) for l in loops])
-    for l in loops:
-        nm = norm(l.target.elts[1]) if isinstance(l.target, ast.Tuple) else norm(l.target)
-        b = [norm(s) for s in l.body]
-        ok = len(b) == 1 and b[0] in (f"setattr(self, {nm}, getattr(self, {nm})[ids])", f"setattr(self, {nm}, list(np.array(getattr(self, {nm}))[ids]))")
-        ctx.check(ok, RC, "RowCollector.sort", "each column is replaced by itself indexed with the same vector", detail=b)
-    recomputed = [norm(c) for l in loops for c in ast.walk(l) if isinstance(c, ast.Call) and dotted_name(c.func) in ("np.argsort", "sorted")]
-    ctx.check(not recomputed, RC, "RowCollector.sort", "no column is sorted on its own", detail=recomputed or None)
+    for mode in (True, False):
+        name = "array" if mode else "list"
+        try:
+            its = _column_iterations(so, mode)
+        except (Unrecognised, AnalysisError) as e:
+            ctx.unrecognised(RC, "RowCollector.sort", f"{name} mode: permutation", str(e))
+            continue
+        if len({id(i[0]) for i in its}) != 1:
+            ctx.unrecognised(RC, "RowCollector.sort", f"{name} mode: permutation", "loops over the column list")
+            continue
+        V = f"np.argsort(getattr(self, {arg}))"
+        for lp, idx, nm, eff, by_name in its:
+            if len(eff) != 1:
+                ctx.unrecognised(RC, "RowCollector.sort", f"{name} mode: each column is replaced by itself indexed with the same vector", f"effects {[norm(x)[:60] for x in eff]}")
+                continue
+            got = norm(eff[0])
+            col = f"getattr(self, {nm})"
+            wants = [f"setattr(self, {nm}, {col}[{v}])" if mode else f"setattr(self, {nm}, list(np.array({col})[{v}]))" for v in (V, f"{V}[::-1]")]
+            if got in wants:
+                ctx.holds(RC, "RowCollector.sort", f"{name} mode: each column is replaced by itself indexed with the same vector", detail=got.replace(nm, "NAME")[:120])
+            elif "argsort" in got.replace(V, "") or "sorted(" in got:
+                ctx.violated(RC, "RowCollector.sort", f"{name} mode: no column is sorted on its own", detail=got.replace(nm, "NAME")[:160],
+                             expected="one index vector computed from the named column, applied to every column")
+            else:
+                ctx.unrecognised(RC, "RowCollector.sort", f"{name} mode: each column is replaced by itself indexed with the same vector", f"effect {got[:140]}")
 
 
 class GridHandler(Handler):
@@ -337,9 +412,9 @@ def r4_combination(ctx):
     ids_def = "ids = [range(len(item)) for item in self._items]"
     for f, q in ((k, "keys"), (it, "items")):
         b = [norm(s) for s in K.body_nodoc(f)]
-        ctx.check(ids_def in b, DC, f"DataCombination.{q}", "index ranges are range(len(list)) per list, in list order", detail=[x for x in b if x.startswith("ids")])
+        ctx.form(ids_def in b, DC, f"DataCombination.{q}", "index ranges are range(len(list)) per list, in list order", detail=[x for x in b if x.startswith("ids")])
         loops = [l for l in ast.walk(f) if isinstance(l, ast.For)]
-        ctx.check(len(loops) == 1 and norm(loops[0].iter) == "itertools.product(*ids)", DC, f"DataCombination.{q}", "index tuples enumerate the Cartesian product of the ranges", detail=[norm(l.iter) for l in loops])
+        ctx.form(len(loops) == 1 and norm(loops[0].iter) == "itertools.product(*ids)", DC, f"DataCombination.{q}", "index tuples enumerate the Cartesian product of the ranges", detail=[norm(l.iter) for l in loops])
     loops = [l for l in ast.walk(v) if isinstance(l, ast.For)]
     ctx.check(len(loops) == 1 and norm(loops[0].iter) == "itertools.product(*self._items)", DC, "DataCombination.values", "value tuples enumerate the Cartesian product of the lists", detail=[norm(l.iter) for l in loops])
     ys = [y for y in ast.walk(it) if isinstance(y, ast.Yield)]
@@ -355,9 +430,9 @@ def r4_combination(ctx):
     src = norm(comp.generators[0].iter)
     rng = src if src != "iditems" else next((norm(a.value) for a in ast.walk(it) if isinstance(a, ast.Assign) and norm(a.targets[0]) == "iditems"), src)
     kv = norm(ys[0].value.elts[0])
-    ctx.check(norm(comp.elt) == f"self._items[{var}][{kv}[{var}]]", DC, "DataCombination.items", "value i is taken from list i at key component i", detail=norm(comp.elt),
+    ctx.form(norm(comp.elt) == f"self._items[{var}][{kv}[{var}]]", DC, "DataCombination.items", "value i is taken from list i at key component i", detail=norm(comp.elt),
               expected=f"self._items[{var}][{kv}[{var}]]")
-    ctx.check(rng == "range(len(self._items))", DC, "DataCombination.items", "every list contributes one component, in order", detail=rng)
+    ctx.form(rng == "range(len(self._items))", DC, "DataCombination.items", "every list contributes one component, in order", detail=rng)
 
 
 RULES = [
